@@ -88,13 +88,15 @@ def summariser(lib):
 
 
 def floor_days(lib, q):
-    """The function named q turns epoch seconds into (days, seconds of the day): on every path that is not the sentinel's,
-    the value handed to LocalDate::forEpochDays must be floor(es / 86400) and the value handed to LocalTime::forSeconds
-    (when there is one) es - 86400 * days.  Both are read off the path summary and *evaluated* on instants around day
-    boundaries on both sides of the epoch and at the ends of the 32-bit range.  -> (ok, why, cases)"""
-    from .gnf import eval_formula, eval_poly, arith_assign
-    f, s = summarize(lib, q)
-    es = f.params[0][0]
+    """The factory named q (LocalDate / LocalDateTime ::forEpochSeconds) is interpreted (E-SEQ, typed, the day formulas and
+    LocalTime::forSeconds through their real bodies) on instants around day boundaries on both sides of the epoch and at
+    the ends of the 32-bit range: the fields of the result must be the calendar date (and time of day) of that instant -
+    the day count is the floor quotient by 86400, a negative multiple of 86400 is midnight, not the day before; the
+    sentinel gives the error value.  -> (ok, why, cases)"""
+    import datetime
+    from .aeval import AEval, AObj, CxxModule, Raised
+    f = lib.fn(q)
+    mod = CxxModule(lib, ['ace_time::'])
     inv = lib.const('ace_time::LocalDate::kInvalidEpochSeconds')
     samples = set()
     for k in (-24855, -24854, -10958, -366, -2, -1, 0, 1, 2, 365, 10957, 24854):
@@ -105,31 +107,42 @@ def floor_days(lib, q):
     samples.update({-(1 << 31) + 1, (1 << 31) - 1})
     samples.discard(inv)
     n = 0
+
+    def fields(o):
+        """(year, month, day[, hour, minute, second]) of a LocalDate / LocalDateTime object tree"""
+        if not isinstance(o, AObj):
+            return None
+        a = o.attrs
+        if 'mYearTiny' in a:
+            return (2000 + a['mYearTiny'], a['mMonth'], a['mDay'])
+        if 'mLocalDate' in a and 'mLocalTime' in a:
+            d, tm = a['mLocalDate'].attrs, a['mLocalTime'].attrs
+            return (2000 + d['mYearTiny'], d['mMonth'], d['mDay'], tm['mHour'], tm['mMinute'], tm['mSecond'])
+        return None
     for v in sorted(samples):
-        asg = arith_assign({es: v})
         try:
-            hits = [p for p in s.paths if eval_formula(p[0], asg)]
-        except (KeyError, TypeError) as ex:
-            return False, 'the path conditions depend on %s, not only on the epoch seconds' % (ex,), n
-        if len(hits) != 1 or hits[0][1] != 'return' or hits[0][2] is None:
-            return False, 'no single returning path for epoch seconds %d' % v, n
-        res = _P(hits[0][2])
-        days = fn_atoms(res, 'LocalDate::forEpochDays')
-        secs = fn_atoms(res, 'LocalTime::forSeconds')
-        if len(days) != 1:
-            return False, 'epoch seconds %d: the result is not built from LocalDate::forEpochDays(days)' % v, n
-        try:
-            d = eval_poly(_P(days[0][2][0]), asg)
-            sec = eval_poly(_P(secs[0][2][0]), asg) if secs else None
-        except (KeyError, TypeError) as ex:
-            return False, 'the day count depends on %s, not only on the epoch seconds' % (ex,), n
+            r = AEval(module=mod, typed=True, max_steps=20000).call_function(f.name, [v], chosen=CxxModule._Fn(f))
+        except Raised as x_:
+            return False, 'epoch seconds %d: interpretation raises %s' % (v, x_.what), n
+        got = fields(r)
+        if got is None:
+            return False, 'epoch seconds %d: the result is not a LocalDate / LocalDateTime value' % v, n
+        dt = datetime.datetime(2000, 1, 1) + datetime.timedelta(seconds=v)
+        want = (dt.year, dt.month, dt.day, dt.hour, dt.minute, dt.second)[:len(got)]
         n += 1
-        if d != v // 86400:
-            return False, ('epoch seconds %d: %d days are handed to forEpochDays, the floor quotient by 86400 is %d%s'
-                           % (v, d, v // 86400, ' (a negative multiple of 86400 is midnight, not the day before)' if v < 0 and v % 86400 == 0 else '')), n
-        if secs and sec != v - 86400 * (v // 86400):
-            return False, 'epoch seconds %d: %d seconds of the day are handed to LocalTime::forSeconds, expected %d = es - 86400 * days' % (v, sec, v - 86400 * (v // 86400)), n
-    return True, '', n
+        if got != want:
+            days = (datetime.date(*got[:3]) - datetime.date(2000, 1, 1)).days if 1 <= got[1] <= 12 and 1 <= got[2] <= 31 else None
+            return False, ('epoch seconds %d: the result is %s, the calendar says %s%s%s'
+                           % (v, got, want, '' if days is None else ' (day count %d, the floor quotient by 86400 is %d)' % (days, v // 86400),
+                              ' (a negative multiple of 86400 is midnight, not the day before)' if v < 0 and v % 86400 == 0 else '')), n
+    try:
+        r = AEval(module=mod, typed=True, max_steps=20000).call_function(f.name, [inv], chosen=CxxModule._Fn(f))
+        e = AEval(module=mod, typed=True, max_steps=20000).call_function(f.name.rsplit('::', 1)[0] + '::isError', [], recv=r)
+    except Raised as x_:
+        return False, 'the sentinel: interpretation raises %s' % x_.what, n
+    if not e:
+        return False, 'the invalid sentinel %d does not give an error value (fields %s)' % (inv, fields(r)), n
+    return True, '', n + 1
 
 
 def lin(p):
